@@ -85,7 +85,16 @@ def run_case(case):
         return r
     try:
         model = compile_schema(text)
-        checker = Checker(model, fns)
+        if case.get('style', 0) % 2:
+            # the user functions are supplied after construction, through the documented `user_fns` attribute (what
+            # validate_user_fns() is there to check), and one of them is replaced once more
+            given = {}
+            checker = Checker(model, given)
+            given.update(fns)
+            given['$first_a'] = lambda c, args: False
+            checker.user_fns['$first_a'] = fns['$first_a']
+        else:
+            checker = Checker(model, fns)
     except SemanticError as e:
         if 'never occurs before' in str(e) or 'Loop detected' in str(e):
             # (a) pattern numbered later by the compiler; (b) node-level signing cycle, e.g. two rules with the same name
@@ -193,7 +202,52 @@ def _case(mode='base'):
     return st.fixed_dictionaries({'schema': G.schema(mode=mode), 'style': st.integers(0, 5), 'moves': moves})
 
 
+def run_large(case):
+    """Schemas with MANY rules (60..140) and hundreds of pattern edges (pattern tags beyond one octet), probed with one matching
+    and a few non-matching names per sampled rule; direct and after save()/load()."""
+    r = Result()
+    n, width = case['n_rules'], case['width']
+    rules = []
+    for i in range(n):
+        items = [{'lit': f'p{i}'}] + [{'pat': '_'} if (i + j) % 3 else {'pat': f'x{j}'} for j in range(width)]
+        rules.append({'id': f'#r{i}', 'name': items, 'cons': [], 'sign': []})
+    sch = {'rules': rules}
+    text = L.render(sch, case.get('style', 0))
+    try:
+        checker = Checker(compile_schema(text), {})
+    except Exception as e:
+        return r.bad(f'C11/large/compile-raised/{type(e).__name__}', repr(e)[:200])
+    try:
+        loaded = Checker.load(checker.save(), {})
+    except Exception as e:
+        return r.bad(f'C11/large/save-load-raised/{type(e).__name__}', f'{e!r} ({n} rules x {width} patterns)')
+    ex = L.expand(sch)
+    for i in case['probe']:
+        i %= n
+        good = [L.comp_of(f'p{i}')] + [L.comp_of(f'v{j}') for j in range(width)]
+        for name in (good, good[:-1], good + [L.comp_of('more')], [L.comp_of(f'p{(i + 1) % n}x')] + good[1:]):
+            want = L.match_all(sch, name, {}, ex)
+            for label, ck in (('direct', checker), ('loaded', loaded)):
+                try:
+                    got = lib_matches(ck, name)
+                except Exception as e:
+                    return r.bad(f'C11/large/match-raised/{type(e).__name__}', f'{e!r}')
+                if got != want:
+                    return r.bad(f'C11/large/{label}/{"spurious-match" if got - want else "missed-match"}',
+                                 f'rule {i} of {n}, width {width}: got {_showset(got)} want {_showset(want)}')
+    r.key = (n // 20, width)
+    r.classes = (f'rules:{n // 20 * 20}+', f'pattern-edges:{n * width // 100 * 100}+')
+    return r
+
+
+def _large_case():
+    return st.fixed_dictionaries({'n_rules': st.integers(60, 140), 'width': st.integers(1, 4), 'style': st.integers(0, 5),
+                                  'probe': st.lists(st.integers(0, 200), min_size=3, max_size=8)})
+
+
 SUBCHECKS = {
+    'large-schemas': SubCheck(run_large, strategy=lambda tier: _large_case(), examples={'quick': 40, 'thorough': 600},
+                              note='60..140 rules x 1..4 patterns each: several hundred pattern edges'),
     'schemas': SubCheck(run_case, strategy=lambda tier: _case('base'), examples={'quick': 800, 'thorough': 16000}),
     'schemas-family': SubCheck(run_case, strategy=lambda tier: _case('family'), examples={'quick': 600, 'thorough': 12000},
                                note='redefinitions with identical name pattern, sibling rules sharing a prefix, rules referenced twice'),
